@@ -84,6 +84,32 @@ example : Inv (apply ⟨[], []⟩ { Attrs.init with pmax := 33554432, pl := some
     (apply ⟨[], []⟩ { Attrs.init with pmax := 33554432, pl := some 33554432 } (.setMax none)).1.pl
       = some 16777216 := by decide
 
+/-- **Crossing, then corrected** (narrows D09b).  A bound assignment — whatever it does: cross the
+    other bound, raise after storing the bound — followed directly by an accepted assignment
+    (`None` or a positive multiple of 16 KiB) of the *same* bound that does not cross the other
+    bound leaves a state satisfying the invariant.  So the damage of D09b is confined to the
+    bound itself and is undone by re-assigning that bound (piece length and hashes were not
+    touched by the crossing assignment). -/
+theorem C09_inv_corrected_step (env : Env) (s : St) (op op' : Op) (h : Inv s)
+    (hs : sameBound op op' = true) (hok : OpOk s op') :
+    Inv (apply env (apply env s op).1 op').1 :=
+  apply_corrected_inv h env op op' hs hok
+
+/-- All histories in which every bound assignment across the other bound is directly followed by
+    such a corrective assignment (hypothesis `AllOkC`, evaluated by the driver as `hypC`). -/
+theorem C09_inv_reachable_corrected (env : Env) (ops : List Op) (s : St) (h : Inv s)
+    (hok : AllOkC env s ops) : Inv (run env s ops) :=
+  allOkC_inv env ops s h hok
+
+theorem C09_inv_history_corrected (env : Env) (ops : List Op) (hok : AllOkC env Attrs.init ops) :
+    Inv (run env Attrs.init ops) :=
+  allOkC_inv env ops _ C09_inv_init hok
+
+/-- `AllOkC` is weaker than `AllOk`: the `_corrected` theorems subsume `C09_inv_reachable/history`. -/
+theorem C09_allOk_corrected (env : Env) (ops : List Op) (s : St) (hok : AllOk env s ops) :
+    AllOkC env s ops :=
+  allOk_allOkC env ops s hok
+
 /-- `size` is the sum of the sizes of the listed files — in every state. -/
 theorem C09_size_sum (s : St) : size s = ((filesOf s).map (·.2)).sum := by
   unfold size filesOf sizeC
@@ -262,6 +288,13 @@ example : (run exEnv exS (exOps ++ [.setPieceSize (some 65536)])).pieces = none 
 example : (run exEnv exS (exOps ++ [.setMin (some 65536)])).pieces = none := by decide
 example : (run exEnv exS (exOps ++ [.setPieceSize (some 49152), .setName none])).pieces.isSome = true := by
   decide
+/-- `AllOkC` is strictly weaker: `piece_size_max = 32768; piece_size_min = 65536` (raises, leaves
+    min > max: D09b) `; piece_size_min = 32768` — not `AllOk`, but `AllOkC`; the invariant fails
+    after the second and holds again after the third assignment (piece size clamped to 32768). -/
+example :
+    let ops : List Op := [.setMax (some 32768), .setMin (some 65536), .setMin (some 32768), .generate]
+    ¬ AllOk exEnv exS ops ∧ AllOkC exEnv exS ops ∧ ¬ Inv (run exEnv exS (ops.take 2)) ∧
+    Inv (run exEnv exS (ops.take 3)) ∧ (run exEnv exS ops).pieces.isSome = true := by decide
 example : ∃ size, ¬ 2 * size ≤ maxPieces size ∧ 16384 < rawPieceSize size := ⟨2 ^ 24, by decide⟩
 
 end Torf.C09
